@@ -32,6 +32,15 @@ SCENARIOS = [
     # caller without standard streams: every descriptor the library obtains lands on 0-2 and is moved
     ("closedstd", {"_setup": "CLOSE012 7", "_cmask": 7}),
     ("closedstd-path", {"in": 7, "out": 7, "err": 1, "nb": 1, "_setup": "CLOSE012 3", "_cmask": 3}),
+    # ... and no stream of the child is a pipe: the only pipes are the library's internal ones
+    # (error report, exit detection), which then get descriptors 0-2 from the kernel
+    # the caller's own stdout as the handle for the child's stderr while stdout is a pipe; and
+    # stderr on the child's stdout while that is the parent's (both go through the copy the child
+    # makes of a source numbered below the stream it is for)
+    ("selfhandle", {"herrfd": 1}),
+    ("parent-errstdout", {"out": 2, "err": 4}),
+    ("closedstd-discard", {"rdiscard": 1, "_setup": "CLOSE012 7", "_cmask": 7}),
+    ("closedstd-parent", {"rparent": 1, "_setup": "CLOSE012 6", "_cmask": 6}),
     # relative program under a working directory longer than one getcwd buffer step
     # (the resolved name is then longer than PATH_MAX, so exec itself must fail with ENAMETOOLONG)
     ("wdreldeep", {"progx": "2e2f78", "wdx": "2f", "_setup": "CWDPAD 5000 ; LINKVC 0 78 right", "_natural": -E.ENAMETOOLONG}),
